@@ -141,6 +141,21 @@ def check(ctx):
             probs.append('does not fill along the frame axis (axis=0)')
         ctx.ob('R4', fm, node, not probs, '; '.join(probs) if probs else f'{fill.split(".")[-1]} of the states along frames with NOSITE')
     check_fill_helpers(ctx)
+    # the fill helpers are read-only on their argument (states_prev / states_next must not alter Transitions.states)
+    for meth in ('states_prev', 'states_next'):
+        itm = ctx.entry(f'{TR}.{meth}')
+        seen = set()
+        for e in itm.events:
+            if e['tag'] != 'store' or e['where'] is None or e['where'].qualname not in ('gemdat.utils.ffill', 'gemdat.utils.bfill'):
+                continue
+            b = e['base']
+            if b is None or id(e['node']) in seen or e['kind'] == 'attr':
+                continue
+            seen.add(id(e['node']))
+            if b.store is not None and b.store.startswith('attr:'):
+                ctx.ob('R4', e['where'], e['node'], False,
+                       f'{e["where"].name} writes into its argument, which is (a view of) {b.store[5:]}: asking for the previous / next site '
+                       f'overwrites the recorded states, so the states no longer match the event table')
 
 
 def check_fill_helpers(ctx):
